@@ -20,7 +20,7 @@ pub struct Hdrs {
     pub max_instr: usize,
 }
 
-const CP_FORMS: &[(&str, &str)] = &[("plain", "T"), ("qualified", "m::T"), ("generic", "T<i32>"), ("turbofish", "T::<i32>"), ("tuple", "(i32, i32)"), ("deep", "a::b::T<m::X, i32>")];
+const CP_FORMS: &[(&str, &str)] = &[("plain", "T"), ("qualified", "m::T"), ("generic", "T<i32>"), ("turbofish", "T::<i32>"), ("tuple", "(i32, i32)"), ("deep", "a::b::T<m::X, i32>"), ("self", "S")];
 const CP2_FORMS: &[(&str, &str)] = &[("plain", "U"), ("qualified", "m::U")];
 const ER_FORMS: &[(&str, &str)] = &[("plain", "Er"), ("qualified", "m::Er"), ("generic", "Er<i32>"), ("qualified-turbofish", "m::Er::<i32>")];
 
@@ -195,7 +195,7 @@ impl Space for Hdrs {
 
 pub fn run(tier: &str) -> i32 {
     let rep = Report::new("C04", tier, "model_checking");
-    rep.set_rule("every multiset of <= k of the 24 trait-instruction names (k=2 quick, 3 thorough) over 1-2 counterparts whose (kind, fallibility, counterpart) sets do not overlap, in EVERY order, x 6 counterpart type forms (plain, qualified, generic, turbofish, bare tuple, deep generic path) x 4 error type forms x struct|enum host; the multiset of impl headers (trait path read structurally, Self type, trait argument, `type Error`) of the real expansion must equal M_appl o M_hdr (README:190-264). states = distinct inputs; non-trivial = inputs for which more than one impl is expected");
+    rep.set_rule("every multiset of <= k of the 24 trait-instruction names (k=2 quick, 3 thorough) over 1-2 counterparts whose (kind, fallibility, counterpart) sets do not overlap, in EVERY order, x 7 counterpart type forms (plain, qualified, generic, turbofish, bare tuple, deep generic path, the deriving type itself) x 4 error type forms x struct|enum host; the multiset of impl headers (trait path read structurally, Self type, trait argument, `type Error`) of the real expansion must equal M_appl o M_hdr (README:190-264). states = distinct inputs; non-trivial = inputs for which more than one impl is expected");
     rep.assume("`T::<X>` and `T<X>` are treated as the same type in headers; header = (trait, Self, argument, Error) - bodies are C01-C03's business");
     let caps = Caps::from_env(if tier == "quick" { 100.0 } else { 1200.0 });
     if tier == "quick" {
